@@ -50,13 +50,14 @@ Judge(e, W, M, tt, aux, x) ==
            ctx08 == [M |-> M, plan |-> aux.echo.plan, back |-> x.tf, dg1 |-> aux.echo.dg, dg2 |-> x.dg, pn |-> x.pn]
        IN [viol |-> (IF fromEmpty /\ "C03" \in W THEN C03(ctx03) ELSE {})
                  \cup (IF fromEmpty /\ "C20" \in W THEN C20(ctx03) ELSE {})
+                 \cup (IF fromEmpty /\ "C02" \in W /\ ~x.pn THEN C02To(M, x.pobj, x.tf) ELSE {})
                  \cup (IF fromEmpty /\ "C07" \in W /\ ~x.pn THEN C07To(M, x.pobj, x.tf) ELSE {})
                  \cup (IF refresh /\ "C09" \in W THEN C09(ctx09) ELSE {})
                  \cup (IF idem /\ "C09" \in W THEN C09Idem(ctx09) ELSE {})
                  \cup (IF echoing /\ "C08" \in W THEN C08To(ctx08) ELSE {})
                  \cup (IF reduced /\ "C06" \in W THEN C06To(ctx06) ELSE {})
                  \cup (IF "C17" \in W /\ x.ptf.k = "obj" THEN C17To([M |-> M, obj |-> x.pobj, pre |-> x.ptf, tf |-> x.tf, hooks |-> x.hooks, dg |-> x.dg, pn |-> x.pn]) ELSE {}),
-           evald |-> {p \in {"C03", "C20", "C07"} : fromEmpty /\ p \in W}
+           evald |-> {p \in {"C03", "C20", "C07", "C02"} : fromEmpty /\ p \in W}
                  \cup {p \in {"C09"} : (refresh \/ idem) /\ p \in W}
                  \cup {p \in {"C08"} : echoing /\ p \in W}
                  \cup {p \in {"C06"} : reduced /\ p \in W}
@@ -81,6 +82,7 @@ Judge(e, W, M, tt, aux, x) ==
            ctx08 == [M |-> M, s |-> aux.echo.s, s2 |-> x.obj, dg |-> x.dg, pn |-> x.pn]
        IN [viol |-> (IF rtOn /\ ~x.pn /\ "C04" \in W THEN C04(rtctx) ELSE {})
                  \cup (IF rtOn /\ ~x.pn /\ "C19" \in W THEN C19(rtctx) ELSE {})
+                 \cup (IF rtOn /\ ~x.pn /\ "C02" \in W THEN C02From(M, x.ptf, x.obj) ELSE {})
                  \cup (IF rtOn /\ x.pn /\ "C04" \in W THEN {[c |-> "C04.roundtrip", p |-> M.path, sig |-> PanicSig(M, x.pobj)]} ELSE {})
                  \cup (IF rtOn /\ x.pn /\ "C19" \in W THEN {[c |-> "C19.exact", p |-> M.path, sig |-> PanicSig(M, x.pobj)]} ELSE {})
                  \cup (IF "C07" \in W /\ ~x.pn /\ conforming THEN C07From(M, x.ptf, x.obj) ELSE {})
@@ -88,7 +90,7 @@ Judge(e, W, M, tt, aux, x) ==
                  \cup (IF "C06" \in W THEN C06From(ctx05) ELSE {})
                  \cup (IF "C08" \in W /\ echo3 THEN C08Redecode(ctx08) ELSE {})
                  \cup (IF "C17" \in W THEN C17From([M |-> M, tf |-> x.ptf, hooks |-> x.hooks, dg |-> x.dg, pn |-> x.pn]) ELSE {}),
-           evald |-> {p \in {"C04", "C19"} : rtOn /\ p \in W}
+           evald |-> {p \in {"C04", "C19", "C02"} : rtOn /\ p \in W}
                  \cup {p \in {"C07", "C05"} : conforming /\ p \in W}
                  \cup {p \in {"C06"} : p \in W}
                  \cup {p \in {"C08"} : echo3 /\ p \in W}
